@@ -95,6 +95,8 @@ def synthetic_zones():
     # fat v2 with indicators; slim with empty v1 block
     z = T.make_rule_zone(b'CET-1CEST,M3.5.0,M10.5.0/3', version=2)
     out.append(Zone('syn/fat-ind', T.write(z, indicators=True), 'synthetic'))
+    out.append(Zone('syn/fat-ind-std-only', T.write(z, indicators='std'), 'synthetic'))
+    out.append(Zone('syn/fat-ind-ut-only', T.write(z, indicators='ut'), 'synthetic'))
     out.append(Zone('syn/slim', T.write(z, v1_times=[]), 'synthetic'))
     # no footer at all
     z = T.make_rule_zone(b'CET-1CEST,M3.5.0,M10.5.0/3', version=2); z.footer = b''
